@@ -596,6 +596,256 @@ static void mode_client(jval *sc, int scripted)
 	pump_now(1);
 }
 
+
+/* ================================================================ scripted nameservers (C34 / C38)
+ * Up to 2 fake nameservers, each a UDP socket and a TCP listener on the same loopback port.  A rule table
+ * (from the scenario) says what happens to the k-th query for (name, type): reply with the given bytes
+ * (id and question patched from the query), drop, delay, or over TCP close after some bytes.  Every
+ * query / answer / callback / user action is appended to an event log with the virtual time. */
+#define FNS_MAX 2
+struct fconn { int used; evutil_socket_t fd; struct event *ev; unsigned char buf[70000]; size_t n; int srv; };
+static struct { evutil_socket_t ufd, tfd; struct event *uev, *tev; struct sockaddr_in addr; } fns[FNS_MAX];
+static struct fconn fconns[16];
+static int fns_n;
+static jval *fns_rules;          /* current rule table */
+static struct { char n[300]; int t; int cnt; } fns_seen[256];
+static int fns_nseen, fns_nq;
+static char *elog; static size_t elog_len; static FILE *elogf; static int elog_first;
+static void (*fns_on_query)(int nq);
+static void elog_open(void) { elogf = open_memstream(&elog, &elog_len); elog_first = 1; }
+#define ELOG(...) do { fprintf(elogf, "%s{\"ms\":%lld,", elog_first ? "" : ",", (long long)((vt_now_ns - 1000LL * 1000000000LL) / 1000000)); elog_first = 0; fprintf(elogf, __VA_ARGS__); fputc('}', elogf); } while (0)
+
+struct delayed { struct event *ev; int srv; unsigned char *b; int n; struct sockaddr_storage to; socklen_t tl; };
+static struct delayed *dl_list[256]; static int dl_n;
+static void delayed_cb(evutil_socket_t fd, short what, void *arg)
+{
+	struct delayed *d = arg;
+	sendto(fns[d->srv].ufd, d->b, d->n, 0, (struct sockaddr *)&d->to, d->tl);
+}
+static void delayed_free_all(void)
+{
+	int i;
+	for (i = 0; i < dl_n; i++) { event_free(dl_list[i]->ev); free(dl_list[i]->b); free(dl_list[i]); }
+	dl_n = 0;
+}
+
+static int fns_count(const char *name, int t)
+{
+	int i;
+	for (i = 0; i < fns_nseen; i++) if (fns_seen[i].t == t && !strcmp(fns_seen[i].n, name)) return ++fns_seen[i].cnt;
+	if (fns_nseen < 256) { snprintf(fns_seen[fns_nseen].n, sizeof fns_seen[0].n, "%s", name); fns_seen[fns_nseen].t = t; fns_seen[fns_nseen].cnt = 1; fns_nseen++; }
+	return 1;
+}
+static jval *fns_rule(const char *name, int t, int k, int srv, const char *tr)
+{
+	size_t i;
+	for (i = 0; fns_rules && i < fns_rules->n; i++) {
+		jval *r = fns_rules->items[i];
+		const char *rt = j_str(r, "tr", "");
+		if (strcmp(j_str(r, "n", ""), name)) continue;
+		if (j_int(r, "t", 0) && j_int(r, "t", 0) != t) continue;
+		if (j_int(r, "k", 0) && j_int(r, "k", 0) != k) continue;
+		if (j_int(r, "ns", 0) && j_int(r, "ns", 0) != srv + 1) continue;
+		if (rt[0] && strcmp(rt, tr)) continue;
+		return r;
+	}
+	return NULL;
+}
+/* handle one query; returns the reply length placed in rep (0 = no reply), *delay_ms and *close_at from the rule */
+static int fns_handle(int srv, const char *tr, const unsigned char *b, int n, unsigned char *rep, int *delay_ms, int *close_at)
+{
+	char nm[512]; int e, t, k, rl = 0;
+	jval *r;
+	*delay_ms = 0; *close_at = -1;
+	if (n < 12 || (e = q_name(b, n, nm, sizeof nm)) < 0 || e + 4 > n) { ELOG("\"e\":\"junk\",\"ns\":%d", srv + 1); return 0; }
+	lower(nm);
+	t = b[e] * 256 + b[e + 1];
+	k = fns_count(nm, t);
+	r = fns_rule(nm, t, k, srv, tr);
+	ELOG("\"e\":\"q\",\"ns\":%d,\"tr\":\"%s\",\"id\":%d,\"n\":\"%s\",\"t\":%d,\"k\":%d,\"fate\":\"%s\"", srv + 1, tr, b[0] * 256 + b[1], nm, t, k,
+	    r ? j_str(r, "fate", "?") : "norule");
+	if (r) {
+		const char *hex = j_str(r, "reply", "");
+		if (hex[0]) {
+			rl = (int)unhex(hex, rep, 66000);
+			if (rl >= 2) { rep[0] = b[0]; rep[1] = b[1]; }
+			if (j_int(r, "wrongid", 0)) rep[1] ^= 0x55;
+			if (rl >= e && !j_int(r, "noecho", 0)) memcpy(rep + 12, b + 12, e - 12);   /* question name with the case as sent */
+			*delay_ms = (int)j_int(r, "delay_ms", 0);
+			*close_at = (int)j_int(r, "close_at", -1);
+			ELOG("\"e\":\"a\",\"ns\":%d,\"n\":\"%s\",\"t\":%d,\"k\":%d", srv + 1, nm, t, k);
+		}
+	}
+	fns_nq++;
+	return rl;
+}
+static void fns_udp_cb(evutil_socket_t fd, short what, void *arg)
+{
+	int srv = (int)(intptr_t)arg;
+	static unsigned char b[65536], rep[66000];
+	struct sockaddr_storage ss;
+	for (;;) {
+		socklen_t sl = sizeof ss;
+		int n = recvfrom(fd, b, sizeof b, 0, (struct sockaddr *)&ss, &sl), rl, dms, cl;
+		if (n < 0) break;
+		rl = fns_handle(srv, "udp", b, n, rep, &dms, &cl);
+		if (rl > 0 && dms > 0 && dl_n < 256) {
+			struct delayed *d = calloc(1, sizeof *d);
+			struct timeval tv = { dms / 1000, (dms % 1000) * 1000 };
+			d->srv = srv; d->b = malloc(rl); memcpy(d->b, rep, rl); d->n = rl; memcpy(&d->to, &ss, sl); d->tl = sl;
+			d->ev = evtimer_new(base, delayed_cb, d);
+			evtimer_add(d->ev, &tv);
+			dl_list[dl_n++] = d;
+		} else if (rl > 0) sendto(fd, rep, rl, 0, (struct sockaddr *)&ss, sl);
+		if (fns_on_query) fns_on_query(fns_nq);
+		if (!base) return;
+	}
+}
+static void fconn_close(struct fconn *c) { if (c->used) { event_free(c->ev); close(c->fd); c->used = 0; } }
+static void fns_tcp_read_cb(evutil_socket_t fd, short what, void *arg)
+{
+	struct fconn *c = arg;
+	static unsigned char rep[66000], fr[66002];
+	int r = recv(fd, c->buf + c->n, sizeof c->buf - c->n, 0);
+	if (r <= 0) { if (r == 0 || (errno != EAGAIN && errno != EWOULDBLOCK)) fconn_close(c); return; }
+	c->n += r;
+	while (c->used && c->n >= 2) {
+		size_t l = c->buf[0] * 256 + c->buf[1];
+		int rl, dms, cl;
+		if (c->n < 2 + l) break;
+		rl = fns_handle(c->srv, "tcp", c->buf + 2, (int)l, rep, &dms, &cl);
+		memmove(c->buf, c->buf + 2 + l, c->n - 2 - l); c->n -= 2 + l;
+		if (rl > 0) {
+			fr[0] = rl >> 8; fr[1] = rl & 255; memcpy(fr + 2, rep, rl);
+			if (cl >= 0) { if (cl > 0) send(fd, fr, cl < rl + 2 ? cl : rl + 2, MSG_NOSIGNAL); fconn_close(c); }
+			else send(fd, fr, rl + 2, MSG_NOSIGNAL);
+		} else if (cl >= 0) fconn_close(c);
+		if (fns_on_query) fns_on_query(fns_nq);
+		if (!base) return;
+	}
+}
+static void fns_accept_cb(evutil_socket_t fd, short what, void *arg)
+{
+	int srv = (int)(intptr_t)arg, i;
+	evutil_socket_t c = accept(fd, NULL, NULL);
+	if (c < 0) return;
+	evutil_make_socket_nonblocking(c);
+	for (i = 0; i < 16; i++) if (!fconns[i].used) break;
+	if (i == 16) { close(c); return; }
+	fconns[i].used = 1; fconns[i].fd = c; fconns[i].n = 0; fconns[i].srv = srv;
+	fconns[i].ev = event_new(base, c, EV_READ | EV_PERSIST, fns_tcp_read_cb, &fconns[i]);
+	event_add(fconns[i].ev, NULL);
+	ELOG("\"e\":\"conn\",\"ns\":%d", srv + 1);
+}
+static int fns_open(int n)
+{
+	int i, tries;
+	fns_n = 0; fns_nseen = 0; fns_nq = 0; fns_on_query = NULL;
+	for (i = 0; i < n; i++) {
+		for (tries = 0; tries < 50; tries++) {
+			socklen_t sl = sizeof fns[i].addr;
+			int one = 1;
+			fns[i].ufd = socket(AF_INET, SOCK_DGRAM, 0);
+			memset(&fns[i].addr, 0, sizeof fns[i].addr);
+			fns[i].addr.sin_family = AF_INET; fns[i].addr.sin_addr.s_addr = htonl(0x7f000001);
+			if (bind(fns[i].ufd, (struct sockaddr *)&fns[i].addr, sizeof fns[i].addr) < 0) { close(fns[i].ufd); continue; }
+			getsockname(fns[i].ufd, (struct sockaddr *)&fns[i].addr, &sl);
+			fns[i].tfd = socket(AF_INET, SOCK_STREAM, 0);
+			setsockopt(fns[i].tfd, SOL_SOCKET, SO_REUSEADDR, &one, sizeof one);
+			if (bind(fns[i].tfd, (struct sockaddr *)&fns[i].addr, sizeof fns[i].addr) == 0 && listen(fns[i].tfd, 16) == 0) break;
+			close(fns[i].ufd); close(fns[i].tfd);
+		}
+		if (tries == 50) return -1;
+		evutil_make_socket_nonblocking(fns[i].ufd); evutil_make_socket_nonblocking(fns[i].tfd);
+		fns[i].uev = event_new(base, fns[i].ufd, EV_READ | EV_PERSIST, fns_udp_cb, (void *)(intptr_t)i);
+		fns[i].tev = event_new(base, fns[i].tfd, EV_READ | EV_PERSIST, fns_accept_cb, (void *)(intptr_t)i);
+		event_add(fns[i].uev, NULL); event_add(fns[i].tev, NULL);
+		fns_n++;
+	}
+	return 0;
+}
+static void fns_close(void)
+{
+	int i;
+	for (i = 0; i < 16; i++) fconn_close(&fconns[i]);
+	for (i = 0; i < fns_n; i++) { event_free(fns[i].uev); event_free(fns[i].tev); close(fns[i].ufd); close(fns[i].tfd); }
+	fns_n = 0;
+	delayed_free_all();
+}
+
+/* ---------------------------------------------------------------- mode gai (C38) */
+struct gres { int done, err; char *txt; size_t len; };
+static void gai2_cb(int err, struct evutil_addrinfo *res, void *arg)
+{
+	struct gres *g = arg;
+	struct evutil_addrinfo *ai;
+	FILE *f = open_memstream(&g->txt, &g->len);
+	int first = 1;
+	g->done++; g->err = err;
+	fprintf(f, "[");
+	for (ai = res; ai; ai = ai->ai_next) {
+		char a[128]; int port = 0;
+		fmt_sockaddr(ai->ai_addr, a, sizeof a, 0);
+		if (ai->ai_addr->sa_family == AF_INET) port = ntohs(((struct sockaddr_in *)ai->ai_addr)->sin_port);
+		else if (ai->ai_addr->sa_family == AF_INET6) port = ntohs(((struct sockaddr_in6 *)ai->ai_addr)->sin6_port);
+		fprintf(f, "%s{\"f\":%d,\"a\":\"%s\",\"p\":%d,\"st\":%d,\"pr\":%d,\"cn\":", first ? "" : ",", ai->ai_family, a, port, ai->ai_socktype, ai->ai_protocol);
+		if (ai->ai_canonname) j_put_str(f, ai->ai_canonname, strlen(ai->ai_canonname)); else fprintf(f, "null");
+		fprintf(f, "}");
+		first = 0;
+	}
+	fprintf(f, "]");
+	fclose(f);
+	if (res) evutil_freeaddrinfo(res);
+}
+static void mode_gai(jval *sc)
+{
+	jval *lk = j_get(sc, "lookups"), *zones = j_get(sc, "zones"), *hosts = j_get(sc, "hosts"), *opts = j_get(sc, "opts");
+	size_t k;
+	char path[512];
+	fns_open(1);
+	elog_open();
+	dns = evdns_base_new(base, (int)j_int(sc, "base_flags", 0));
+	for (k = 0; opts && k < opts->n; k++) evdns_base_set_option(dns, opts->items[k]->items[0]->str, opts->items[k]->items[1]->str);
+	evdns_base_nameserver_sockaddr_add(dns, (struct sockaddr *)&fns[0].addr, sizeof fns[0].addr, 0);
+	if (hosts) {
+		snprintf(path, sizeof path, "%s/dnsdrv_%d.hosts", j_str(sc, "dir", "/verif/out/tmp"), (int)getpid());
+		write_file(path, hosts->str, hosts->slen);
+		evdns_base_load_hosts(dns, path);
+		unlink(path);
+	}
+	fprintf(out, "{\"res\":[");
+	for (k = 0; lk && k < lk->n; k++) {
+		jval *l = lk->items[k];
+		struct evutil_addrinfo hints;
+		struct gres g;
+		struct evdns_getaddrinfo_request *rq;
+		const char *node = j_get(l, "node") && j_get(l, "node")->t == J_STR ? j_get(l, "node")->str : NULL;
+		const char *serv = j_get(l, "serv") && j_get(l, "serv")->t == J_STR ? j_get(l, "serv")->str : NULL;
+		int q0 = fns_nq, adv = (int)j_int(l, "advance_ms", 0);
+		int64_t t0;
+		if (adv) { vt_now_ns += (int64_t)adv * 1000000; pump_now(2); }
+		fns_rules = zones ? zones->items[j_int(l, "zone", 0)] : NULL;
+		memset(&hints, 0, sizeof hints); memset(&g, 0, sizeof g);
+		hints.ai_family = (int)j_int(l, "family", 0); hints.ai_socktype = (int)j_int(l, "socktype", 0);
+		hints.ai_protocol = (int)j_int(l, "proto", 0); hints.ai_flags = (int)j_int(l, "flags", 0);
+		t0 = vt_now_ns;
+		ELOG("\"e\":\"lookup\",\"i\":%d", (int)k);
+		rq = evdns_getaddrinfo(dns, node, serv, j_int(l, "nohints", 0) ? NULL : &hints, gai2_cb, &g);
+		(void)rq;
+		{ int sync = g.done; if (!g.done) pump_until(&g.done, 3000); pump_now(1);
+		  fprintf(out, "%s{\"done\":%d,\"sync\":%d,\"err\":%d,\"nq\":%d,\"ms\":%lld,\"ai\":%s}", k ? "," : "", g.done, sync, g.err, fns_nq - q0,
+		      (long long)((vt_now_ns - t0) / 1000000), g.txt ? g.txt : "[]"); }
+		free(g.txt);
+	}
+	fprintf(out, "]");
+	evdns_base_free(dns, 0); dns = NULL;
+	pump_now(1);
+	fclose(elogf);
+	fprintf(out, ",\"log\":[%s]", elog ? elog : "");
+	free(elog); elog = NULL;
+	fns_close();
+}
+
 /* ---------------------------------------------------------------- main */
 static void run_scenario(jval *sc)
 {
@@ -609,6 +859,7 @@ static void run_scenario(jval *sc)
 	else if (!strcmp(mode, "server")) mode_server(sc);
 	else if (!strcmp(mode, "query")) mode_client(sc, 0);
 	else if (!strcmp(mode, "reply")) mode_client(sc, 1);
+	else if (!strcmp(mode, "gai")) mode_gai(sc);
 	else fprintf(out, "{\"err\":\"unknown mode\"");
 	ns_close();
 	pump_now(0);
